@@ -100,6 +100,25 @@ theorem estimate_le_noheading (last curr tar : Pt) (dirs : Nat) (pen : Rat) (hpe
     ∃ e, estimatedCostSpecific (some last) curr tar dirs pen = some e ∧ e ≤ pathCost pen ls :=
   Lemmas.Bends.estimate_le_noheading last curr tar dirs pen hpen hno ls h
 
+-- non-vacuity of `estimate_le_start` and `estimate_le_noheading` (`last = curr`: no heading)
+example : IsFreeStart ⟨1, 0⟩ ⟨3, 4⟩ [⟨.E, 2⟩, ⟨.S, 4⟩] ∧
+    ¬ (orthogonalDirection ⟨1, 0⟩ ⟨1, 0⟩ > 0 ∧ orthogonalDirectionsCount (orthogonalDirection ⟨1, 0⟩ ⟨1, 0⟩) = 1) ∧
+    (∃ e, estimatedCostSpecific none ⟨1, 0⟩ ⟨3, 4⟩ 15 1 = some e ∧ e ≤ pathCost 1 [⟨.E, 2⟩, ⟨.S, 4⟩]) ∧
+    (∃ e, estimatedCostSpecific (some ⟨1, 0⟩) ⟨1, 0⟩ ⟨3, 4⟩ 15 1 = some e ∧ e ≤ pathCost 1 [⟨.E, 2⟩, ⟨.S, 4⟩]) := by
+  have hA : IsApproach ⟨1, 0⟩ .E ⟨3, 4⟩ .S [⟨.E, 2⟩, ⟨.S, 4⟩] := by
+    refine ⟨rfl, rfl, by simp [Chain, Perp, Dir.left, Dir.right], ?_, ?_, ?_, ?_⟩
+    · intro l hl; simp only [List.mem_cons, List.mem_nil_iff, or_false] at hl
+      rcases hl with rfl | rfl <;> norm_num
+    · intro l hl; simp [inner] at hl
+    · norm_num [dispX, Dir.ux]
+    · norm_num [dispY, Dir.uy]
+  have hF : IsFreeStart ⟨1, 0⟩ ⟨3, 4⟩ [⟨.E, 2⟩, ⟨.S, 4⟩] := ⟨.E, .S, hA⟩
+  have hno : ¬ (orthogonalDirection ⟨1, 0⟩ ⟨1, 0⟩ > 0 ∧
+      orthogonalDirectionsCount (orthogonalDirection ⟨1, 0⟩ ⟨1, 0⟩) = 1) := by
+    decide +kernel
+  exact ⟨hF, hno, estimate_le_start _ _ 15 1 (by norm_num) _ hF,
+    estimate_le_noheading _ _ _ 15 1 (by norm_num) hno _ hF⟩
+
 /-- **Potential argument** (all weighted digraphs, given by an edge relation): a potential that is
     feasible on every edge and non-positive on goals is a lower bound on the cost of every walk
     into a goal. -/
@@ -116,6 +135,17 @@ theorem hanan_cert_sound (sc : Scene) (c : Cert) (opt : Rat) (h : checkCert sc c
       Lemmas.Hanan.IsRouteCost sc (mkGrid sc) opt :=
   Lemmas.Hanan.checkCert_sound h
 
+-- non-vacuity of `hanan_cert_sound`: box [1,2]×[-1,1] between the source (0,0) and the target (3,0), penalty 1;
+-- the potential (distance to the goal in the state graph) and the witness N,E,E,E,S are accepted, optimum 7
+example :
+    let sc : Scene := { rects := [⟨1, -1, 2, 1⟩], sx := 0, sy := 0, tx := 3, ty := 0, smask := 15, tmask := 15, pen := 1 }
+    (∀ r, Lemmas.Hanan.IsRouteCost sc (mkGrid sc) r → 7 ≤ r) ∧ Lemmas.Hanan.IsRouteCost sc (mkGrid sc) 7 := by
+  intro sc
+  exact hanan_cert_sound sc
+    ⟨#[6, 5, 6, 7, 5, 4, 5, 6, 4, 3, 3, 4, 3, 2, 1, 2, 7, 8, 7, 8, 6, 7, 6, 7, 2, 1, 2, 3, 0, 0, 0, 0, 6, 5, 6, 7, 5,
+       4, 5, 6, 3, 3, 4, 4, 1, 2, 3, 2],
+     [⟨0, 0, 0⟩, ⟨1, 0, 1⟩, ⟨2, 0, 1⟩, ⟨3, 0, 1⟩, ⟨3, 1, 2⟩]⟩ 7 (by decide +kernel)
+
 /-- **Certificate soundness, own-graph variant** (direction-restricted endpoints): if
     `Check.OrthGraph.checkCert` accepts a potential + witness for the visibility graph dumped from
     the router and returns `opt`, then `opt` is the minimum cost over all routes of that graph
@@ -124,5 +154,13 @@ theorem vg_cert_sound (g : Check.OrthGraph.VG) (c : Check.OrthGraph.Cert) (opt :
     (h : Check.OrthGraph.checkCert g c = some opt) :
     (∀ r, Lemmas.OrthGraph.IsRouteCost g r → opt ≤ r) ∧ Lemmas.OrthGraph.IsRouteCost g opt :=
   Lemmas.OrthGraph.checkCert_sound h
+
+-- non-vacuity of `vg_cert_sound`: the graph (0,0)–(2,0)–(2,3)–(0,3)–(0,0), source 0, target 2, penalty 1: optimum 6
+example :
+    let g : Check.OrthGraph.VG :=
+      { xs := #[0, 2, 2, 0], ys := #[0, 0, 3, 3], adj := #[[1, 3], [0, 2], [1, 3], [0, 2]], src := 0, tar := 2, pen := 1 }
+    (∀ r, Lemmas.OrthGraph.IsRouteCost g r → 6 ≤ r) ∧ Lemmas.OrthGraph.IsRouteCost g 6 := by
+  intro g
+  exact vg_cert_sound g ⟨#[7, 6, 6, 7, 5, 4, 3, 4, 0, 0, 0, 0, 3, 2, 3, 4], [⟨1, 1⟩, ⟨2, 2⟩]⟩ 6 (by decide +kernel)
 
 end AdaptaVerif.Props.C05
